@@ -94,6 +94,8 @@ def opts_of(kind):
 
 
 def check_mounts(case, got, exp):
+    if "class" in exp:          # undecodable entry: a value or a Python exception (no crash: seen by the runner)
+        return [] if isinstance(got, dict) and got.get("class") in ("value", "exception") else ["disk_partitions() -> %r" % (got,)]
     rows = rowsof(exp["rows"])
     g = [(r["device"], r["mountpoint"], r["fstype"]) for r in got]
     e = [(r["device"], DIRS[r["mountpoint"]], r["fstype"]) for r in rows]
@@ -188,7 +190,21 @@ def check(ctx):
             ctx.notes.append("mount namespaces unavailable: utmp family skipped")
         for fam, checker, ns in plan:
             cases = [e["inp"] for e in fams[fam]]
+            if fam == "utmp":
+                cases = cases + [{"fam": "utmp", "threads": 4, "calls": 12, "n": 300}]
             res, crash = run_worker(fam, cases, env, namespace=ns)
+            if fam == "utmp":
+                tr = res.pop()
+                cases.pop()
+                if tr is not None:
+                    ctx.case(("utmp-threads", 4, 12, 300))
+                    ctx.cov["utmp_threads"] = tr
+                    if tr["differing"] or tr["reference_rows"] != 200:
+                        ctx.disagree("conf:utmp:threads",
+                                     "users() called from %d threads at once over a %d-record login file: %d of %d calls "
+                                     "returned something else than the single-threaded call (%d rows); first: %r"
+                                     % (tr["threads"], 300, tr["differing"], tr["calls"], tr["reference_rows"], tr["first"]),
+                                     {"utmp_threads": tr})
             if crash:
                 ci = crash["case_index"]
                 ctx.disagree("crash:%s:%s" % (fam, json.dumps(cases[ci], sort_keys=True)[:80] if ci is not None else "?"),
